@@ -254,6 +254,11 @@ def check_purge_paths(prop: str, res: Result, repo: Repo):
                 res.fail(rule, finding(prop, rule, fn, node, f"the purge name set is kept between calls ({w}; e.g. a mutable default argument or a cache on the object): a later purge of another indicator also removes these names"))
         else:
             res.ok(rule, {"site": fn.where, "why": "name collection is stateless"})
+        # the name set is computed from the live registries on every call: no other object state (a cached copy) may feed it
+        allowed = {"name", "sub_indicators", "managed_indicators", fn.name}
+        for n in ast.walk(fn.node):
+            if isinstance(n, ast.Attribute) and isinstance(n.value, ast.Name) and n.value.id == "self" and isinstance(n.ctx, ast.Load) and n.attr not in allowed:
+                res.fail(rule, finding(prop, rule, fn, n, f"the purge name set is read from object state (self.{n.attr}) instead of being collected from the helper registries at call time: helpers registered after that state was filled are never purged"))
         for a in fn.node.args.defaults + [d for d in fn.node.args.kw_defaults if d is not None]:
             if isinstance(a, (ast.List, ast.Dict, ast.Set)) or (isinstance(a, ast.Call) and call_name(a) in ("set", "list", "dict")):
                 res.fail(rule, finding(prop, rule, fn, a, "mutable default argument in the purge name collection: the set is shared by every call in the process"))
